@@ -245,3 +245,36 @@ fn k_calculate_hash_index1() {
     kani::cover!(true, "reachable");
     core::mem::forget(idx);
 }
+
+fn put_le32(b: &mut [u8], o: usize, v: u32) { b[o] = v as u8; b[o + 1] = (v >> 8) as u8; b[o + 2] = (v >> 16) as u8; b[o + 3] = (v >> 24) as u8; }
+
+//@unit props=C01 label=S tier=parked fn=sqpack::index::SqPackIndex(derive read) bound="probe: concrete 2 KiB header image of an index2 file + 2 entries of 8 bytes (hashes symbolic)" stubs=fmt::format
+//@desc the entry table of an index2 file holds size / 8 entries (8-byte records)
+#[kani::proof]
+#[kani::unwind(1030)]
+#[kani::stub(alloc::fmt::format, stub_fmt)]
+fn k_index2_whole_file_two_entries() {
+    let mut img = [0u8; 2064];
+    img[0] = b'S'; img[1] = b'q'; img[2] = b'P'; img[3] = b'a'; img[4] = b'c'; img[5] = b'k';
+    // SqPackHeader: platform 0, size 1024, version 1, type 2 (index), region -1
+    put_le32(&mut img, 12, 1024); put_le32(&mut img, 16, 1); img[20] = 2; img[32] = 0xFF; img[33] = 0xFF;
+    // index header at 1024: size 1024; file descriptor: count 0, offset 2048, size 16
+    put_le32(&mut img, 1024, 1024);
+    put_le32(&mut img, 1024 + 4 + 4, 2048); put_le32(&mut img, 1024 + 4 + 8, 16);
+    // index type at 1024 + 4 + 4*72 ... computed below: size(4) + file desc (72) + pad 4 + 3 descriptors (72 each) = 4 + 72 + 4 + 216 = 296
+    img[1024 + 296] = 1; // Index2
+    let h: [u32; 2] = kani::any();
+    put_le32(&mut img, 2048, h[0]); put_le32(&mut img, 2052, 0x10);
+    put_le32(&mut img, 2056, h[1]); put_le32(&mut img, 2060, 0x20);
+    let mut c = Cursor::new(&img[..]);
+    match SqPackIndex::read(&mut c) {
+        Ok(idx) => {
+            assert!(idx.index_header.index_type == IndexType::Index2, "index2 header");
+            assert!(idx.entries.len() == 2, "a 16-byte entry table of an index2 file holds two 8-byte entries");
+            assert!(idx.entries[1].hash == Hash::FullPath(h[1]), "second entry's hash");
+            core::mem::forget(idx);
+        }
+        Err(e) => { core::mem::forget(e); assert!(false, "index parses"); }
+    }
+    kani::cover!(true, "reachable");
+}
